@@ -28,8 +28,8 @@ CHECKS = {
     ),
     "C04": (
         "exploration", "DESIGN.md §4 C04, §2.1",
-        "process-level runtime monitor (exit status/signal, panic hook with backtrace, per-case CPU time from /proc, counting global allocator, gdb stack triage) over isolated workers driving hostile inputs into 8 byte-level entry-point groups",
-        "16 isolated worker processes call every byte-level entry point on structure-aware mutations of valid inputs and on size-parameterised adversarial templates, built with overflow checks on; a supervisor decides crash / panic / CPU bound exceeded / allocation unrelated to input size per case. Held = no such event on the cases of this run (counts per entry point and mutator in the evidence).",
+        "process-level runtime monitor (exit status/signal, panic hook with backtrace, per-case CPU time from /proc, counting global allocator, gdb stack triage) over isolated workers driving hostile inputs into 8 byte-level entry-point groups; nesting templates also run against an unoptimised (dev profile) build on a 2 MiB thread; valgrind memcheck replay in the thorough tier",
+        "16 isolated worker processes call every byte-level entry point on structure-aware mutations of valid inputs and on size-parameterised adversarial templates, built with overflow checks on; a supervisor decides crash / panic / CPU bound exceeded / allocation unrelated to input size per case. Held = no such event on the cases of this run (counts per entry point and mutator in the evidence). Known finding (KNOWN-FINDING lines): in an unoptimised build nesting of 72-96 levels overflows a 2 MiB thread stack.",
         "Says nothing about inputs not generated. CPU bound 5 s + 50 us/byte; allocation bound max(64 MiB, 4096 x len) per request, 256 MiB + 8192 x len peak.",
     ),
     "C08": (
